@@ -177,7 +177,7 @@ PROPS = {
         "assumptions": [],
     },
     "C08": {
-        "lean_modules": ["Cachelito.Props.C08", "Cachelito.Props.T02", "Cachelito.Props.T03", "Cachelito.Props.T06", "Cachelito.Props.T07", "Cachelito.Props.T08", "Cachelito.Props.T09", "Cachelito.Props.T10", "Cachelito.Props.T11", "Cachelito.Props.T12", "Cachelito.Props.T14", "Cachelito.Props.T15", "Cachelito.Props.T16"],
+        "lean_modules": ["Cachelito.Props.C08", "Cachelito.Props.T02", "Cachelito.Props.T03", "Cachelito.Props.T06", "Cachelito.Props.T07", "Cachelito.Props.T08", "Cachelito.Props.T09", "Cachelito.Props.T10", "Cachelito.Props.T11", "Cachelito.Props.T12", "Cachelito.Props.T14", "Cachelito.Props.T15", "Cachelito.Props.T16", "Cachelito.Props.S01"],
         "streams": [core_stream(filters=[["policy=lfu"], ["policy=arc"], ["policy=tlru"], ["policy=lfu", "shape=crowd"],
                                             ["policy=arc", "shape=crowd"], ["policy=tlru", "shape=crowd"],
                                             ["policy=arc", "shape=crowd", "flavour=async"], ["policy=tlru", "shape=crowd", "flavour=async"]],
